@@ -148,10 +148,7 @@ func c37Run(rt tbx, rec *ev.Rec, p c37Pattern) {
 			p.Download = "drip"
 		}
 	}
-	if p.Download != "" {
-		// the counter drift a faulty scheduler could accumulate is small (one per split): probe densely
-		p.Probe = 53
-	}
+
 	classes := map[string]bool{}
 	nt := p.Stalled
 	kindsIn := map[string]bool{}
@@ -259,7 +256,7 @@ func c37Run(rt tbx, rec *ev.Rec, p c37Pattern) {
 		if p.Download == "big" {
 			r.cli.write(rawFrame(fWindowUpdate, 0, 0, u32(1<<30-65535)))
 		} else {
-			body = 400
+			body = 120
 		}
 		r.cli.write(headersFrames(id, hpackLiteral([][2]string{{":method", "GET"}, {":scheme", "https"}, {":path", "/download"}, {":authority", "h2b.test"}, {"x-sid", fmt.Sprint(id)}}), true, nil, -1, 0))
 		sid := fmt.Sprint(id)
@@ -267,26 +264,31 @@ func c37Run(rt tbx, rec *ev.Rec, p c37Pattern) {
 			rt.Skipf("C37: watchdog waiting for download handler")
 		}
 		r.h.get(sid).release <- hAction{Body: body}
-		if p.Download == "drip" {
-			var wu []byte
-			for i := 0; i < body; i++ {
-				wu = append(wu, rawFrame(fWindowUpdate, 0, id, u32(1))...)
+		scanned, got, granted, ended := 0, 0, 0, false
+		for !ended {
+			// drip: one more octet of stream window whenever everything granted so far has arrived
+			if p.Download == "drip" && got > granted {
+				granted = got
+				r.cli.write(rawFrame(fWindowUpdate, 0, id, u32(1)))
 			}
-			r.cli.write(wu)
-		}
-		scanned, got := 0, 0
-		if !r.cli.waitFor(func() bool {
-			for ; scanned < len(r.cli.frames); scanned++ {
-				if f := &r.cli.frames[scanned]; f.SID == id && f.Typ == fData {
-					got += f.Len
-					if f.EndStream {
-						return true
+			stop := false
+			if !r.cli.waitFor(func() bool {
+				for ; scanned < len(r.cli.frames); scanned++ {
+					if f := &r.cli.frames[scanned]; f.SID == id && f.Typ == fData {
+						got += f.Len
+						if f.EndStream {
+							ended = true
+						}
 					}
 				}
+				stop = r.cli.rerr != nil || r.cli.errGoAwayLocked() != nil
+				return ended || stop || (p.Download == "drip" && got > granted)
+			}) {
+				rt.Skipf("C37: watchdog waiting for the download")
 			}
-			return r.cli.rerr != nil || r.cli.errGoAwayLocked() != nil
-		}) {
-			rt.Skipf("C37: watchdog waiting for the download")
+			if stop {
+				break
+			}
 		}
 		if !expectAlive("download (" + p.Download + ")") {
 			return
@@ -444,7 +446,13 @@ func c37Run(rt tbx, rec *ev.Rec, p c37Pattern) {
 	}
 	sent := 0
 	for sent < len(frames) && !serverClosed {
-		hi := sent + p.Probe
+		step := p.Probe
+		if maxZero >= limit-1200 {
+			// close to the limit the queue is probed every 16 frames (<= 32 queued frames apart), so
+			// that overshooting the limit by a few dozen frames cannot slip between two probes
+			step = 16
+		}
+		hi := sent + step
 		if hi > len(frames) {
 			hi = len(frames)
 		}
